@@ -59,6 +59,12 @@ where
         Ok(Some(parsed))
     }
 
+    /// Render template to its text as written: for templates whose rendering *is* the result
+    /// (`--output-template`), where a value that happens to spell "none" or "null" is still text
+    pub fn render_text(&self, zerv: Option<&Zerv>) -> Result<String, ZervError> {
+        self.render_string(zerv)
+    }
+
     /// Internal method: get or create cached Tera instance
     fn get_tera(&self) -> Result<&tera::Tera, ZervError> {
         self._cached_tera.get_or_try_init(|| {
